@@ -295,6 +295,10 @@ func (o *c03Obs) predict(w *wWorld, s *wStep) (accept bool, decided bool, why st
 		return false, true, "on-behalf-of by a non-root session"
 	}
 	at, attached := o.preAtt[s.Sess][route]
+	if o.tainted[route] {
+		// the attachment model follows the store, the server its stale cache (listed C08 finding)
+		return false, false, "cache and store disagree"
+	}
 	if cat == "sys" {
 		// any logged-in author, no attachment needed; sys is never suspended
 		return true, true, "sys"
@@ -473,6 +477,11 @@ func (o *c02Obs) After(w *wWorld, st *wStep) *kit.Viol {
 	o.accepted++
 	seq := c01Seq(c)
 	route := st.Route
+	if o.tainted[route] {
+		// who is attached as what can no longer be told from the acknowledged requests (listed C08 finding)
+		o.disagree++
+		return nil
+	}
 	author := w.users[st.User].uid
 	// Eligible sessions from the harness attachment model and the stored permissions before the step.
 	elig := map[int]wAtt{}
@@ -533,7 +542,12 @@ func (o *c02Obs) After(w *wWorld, st *wStep) *kit.Viol {
 		case isElig && len(copies) > 1:
 			return kit.V("copy-duplicated", "publish %s reached session %d %d times", st.Token, sess, len(copies))
 		case !isElig && len(copies) > 0:
-			return kit.V("copy-leaked", "publish %s (#%d on %s) reached session %d which is not an attached reader (noecho=%v own=%v): %s", st.Token, seq, route, sess, st.Op.F, sess == st.Sess, wJSON(copies[0]))
+			why := "not attached (model)"
+			if at2, ok := o.preAtt[sess][route]; ok {
+				w0, g0, del0, has0 := wStoreSub(o.pre, route, w.users[at2.User].uid)
+				why = fmt.Sprintf("attached as user %d chan=%v, stored want/given %v/%v deleted=%v present=%v", at2.User, at2.Chan, w0, g0, del0, has0)
+			}
+			return kit.V("copy-leaked", "publish %s (#%d on %s) reached session %d which is not an attached reader [%s] (noecho=%v own=%v): %s", st.Token, seq, route, sess, why, st.Op.F, sess == st.Sess, wJSON(copies[0]))
 		}
 		if !isElig {
 			continue
